@@ -9,6 +9,7 @@
 #include "colvar.h"
 #include "colvarbias.h"
 #include "colvarscript.h"
+#include "colvarscript_commands.h"
 #include "colvars_memstream.h"
 
 void Ctx::drop()
@@ -204,8 +205,32 @@ bool ops_module(Ctx &c, Toks const &t, std::string const &rest)
     cvm::clear_error();
     int rc = run_colvarscript_command((int) argv.size(), argv.data());
     c.out("rc", itok(rc != COLVARS_OK ? 1 : 0));
-    c.out("res", stok(escape_out(get_colvarscript_result())));
+    std::string const res(get_colvarscript_result());
+    c.out("res", stok(escape_out(res)));
+    // outcome class, from the dispatcher's own messages
+    std::string cls = "run";
+    if (rc != COLVARS_OK) {
+      if (res.find("No commands given") == 0) cls = "nocommand";
+      else if (res.find("Missing parameters") == 0) cls = "missing";
+      else if (res.find("Colvar not found") == 0 || res.find("Bias not found") == 0) cls = "notfound";
+      else if (res.find("Syntax error") == 0) cls = "syntax";
+      else if (res.find("Insufficient number of arguments") == 0) cls = "toofew";
+      else if (res.find("Too many arguments") == 0) cls = "toomany";
+    }
+    c.out("cls", stok(cls));
     cvm::clear_error();
+    return true;
+  }
+  if (op == "s.table") {
+    int const n = cvscript_n_commands();
+    char const **names = cvscript_command_names();
+    std::vector<std::string> o;
+    for (int i = 0; i < n; i++) {
+      o.push_back(stok(std::string(names[i]) + ":" + std::to_string(cvscript_command_n_args_min(names[i])) + ":" +
+                       std::to_string(cvscript_command_n_args_max(names[i]))));
+    }
+    c.out("ncmd", itok(n));
+    c.out("table", join(o));
     return true;
   }
   return false;
